@@ -51,12 +51,17 @@ def literal_family(rng, w, mode):
     pool = rng.choice([[1, 2, 3, 7, -1, 4, 5], ["a", "ab", "b", "abc", "xb", "c"]])
     if mode == "mixed":
         pool = [1, "a", 2, "b", 3]
+    if mode == "boolint":
+        # values that are equal across types (1 == True, 0 == False): Literal[1] and Literal[True] are different types
+        pool = [0, 1, True, False, 2]
     n = rng.choice([2, 3, 4, 5, 6])
     defs = []
     used = []
     for i in range(n):
         k = rng.randint(1, 3)
-        if mode == "disjoint":
+        if mode == "boolint":
+            vals = rng.choice([[1], [True], [0], [False], [0, 1], [False, True], [1, 2], [True, False]])
+        elif mode == "disjoint":
             avail = [x for x in pool if x not in used]
             if not avail:
                 break
@@ -149,7 +154,7 @@ def run(ctx):
         check_program(ctx, prog, stats, "single_type_calls")
         for _ in range(3):
             check_program(ctx, nested_combo_program(ctx.rng, w, corpus_enc), stats, "nested_combination_calls")
-        for mode in ("disjoint", "overlap", "mixed"):
+        for mode in ("disjoint", "overlap", "mixed", "boolint"):
             fam = literal_family(ctx.rng, World([]), mode)
             if len(fam["defs"]) >= 2:
                 check_program(ctx, fam, stats, "literal_family_calls_" + mode)
@@ -158,9 +163,9 @@ def run(ctx):
         if len(ctx.violations) > 5:
             break
     return {"evaluations": stats["evaluations"], "distinct_nontrivial": len(stats["distinct"]),
-            "rule": "per round: 14 random types of the closure (depth <= 2) x 20+ corpus values for isinstance; one random type with an object fallback dispatched on every corpus value; Literal families of 2-6 methods (disjoint / overlapping / mixed value types, shuffled value order, with or without fallback) dispatched on every pool value and four foreign values; a dispatch case is non-trivial (all involve a value type), distinct by (methods, tables, call)",
+            "rule": "per round: 14 random types of the closure (depth <= 2) x 20+ corpus values for isinstance; one random type with an object fallback dispatched on every corpus value; Literal families of 2-6 methods (disjoint / overlapping / mixed value types / values equal across bool and int, shuffled value order, with or without fallback) dispatched on every pool value and four foreign values; a dispatch case is non-trivial (all involve a value type), distinct by (methods, tables, call)",
             "samples": samples, "isinstance_checks": stats["isinstance_checks"], "single_type_calls": stats["single_type_calls"], "nested_combination_calls": stats["nested_combination_calls"],
-            "literal_family_calls": {m: stats["literal_family_calls_" + m] for m in ("disjoint", "overlap", "mixed")},
+            "literal_family_calls": {m: stats["literal_family_calls_" + m] for m in ("disjoint", "overlap", "mixed", "boolint")},
             "traces_validated_against_impl": stats["evaluations"]}
 
 
